@@ -41,6 +41,9 @@ pub fn panic_msg(p: Box<dyn std::any::Any + Send>) -> String {
 }
 
 pub fn silence_panics() {
+    if std::env::var("AMV_LOUD").is_ok() {
+        return;
+    }
     std::panic::set_hook(Box::new(|_| {}));
 }
 
@@ -62,6 +65,8 @@ pub struct World {
     /// calls of the transaction in progress (kept outside the guarded closure so that a panic
     /// still leaves a record of what was being executed)
     pub inflight: Vec<J>,
+    /// use the *_log_patches variants of every mutating call and attach the patches (C09)
+    pub log_patches: bool,
 }
 
 impl World {
@@ -75,6 +80,7 @@ impl World {
             dead: false,
             scenario,
             inflight: vec![],
+            log_patches: false,
         };
         w.log.push(json!({"ev":"reset","enc":enc_name(enc),"scn":scenario,"family":family}));
         w
@@ -181,9 +187,16 @@ impl World {
         self.guarded(r, ev, |w| {
             let w_inflight = &mut w.inflight;
             let doc = &mut w.reps[r];
+            let lp = w.log_patches;
             let mut tx = match &iso {
-                Some(h) => doc.transaction_at(PatchLog::inactive(), h).expect("patch log"),
-                None => doc.transaction(),
+                Some(h) => doc.transaction_at(if lp { PatchLog::active() } else { PatchLog::inactive() }, h).expect("patch log"),
+                None => {
+                    if lp {
+                        doc.transaction_log_patches(PatchLog::active()).expect("patch log")
+                    } else {
+                        doc.transaction()
+                    }
+                }
             };
             let mut done = vec![];
             let n = explicit.as_ref().map(|e| e.len()).unwrap_or(ncalls);
@@ -208,8 +221,12 @@ impl World {
                 done.push(rec);
             }
             let pending = tx.pending_ops();
-            let (hash, _) = tx.commit_with(CommitOptions::default().with_time(0));
+            let (hash, mut plog) = tx.commit_with(CommitOptions::default().with_time(0));
             let mut out = json!({"calls": done, "pending": pending, "res":"ok"});
+            if lp {
+                let ps = w.reps[r].make_patches(&mut plog);
+                out["patches"] = crate::patchx::patches_json(&ps);
+            }
             match hash {
                 Some(h) => {
                     out["hash"] = json!(enc::hash_str(&h));
@@ -249,6 +266,33 @@ impl World {
         let ev = json!({"ev":"deliver","r":r+1,"via":via,"batch":batch});
         let via = via.to_string();
         self.guarded(r, ev, |w| {
+            if w.log_patches {
+                let mut plog = PatchLog::active();
+                let doc = &mut w.reps[r];
+                let res = match via.as_str() {
+                    "loadinc" => {
+                        let mut bytes = vec![];
+                        for c in &changes {
+                            bytes.extend_from_slice(c.raw_bytes());
+                        }
+                        Self::res_of(doc.load_incremental_log_patches(&bytes, &mut plog).map(|_| ()))
+                    }
+                    "each" => {
+                        let mut res = json!("ok");
+                        for c in changes {
+                            if let Err(e) = doc.apply_changes_log_patches([c], &mut plog) {
+                                res = json!(calls::err_name(&e));
+                                break;
+                            }
+                        }
+                        res
+                    }
+                    "batch" => Self::res_of(doc.apply_changes_batch_log_patches(changes, &mut plog)),
+                    _ => Self::res_of(doc.apply_changes_log_patches(changes, &mut plog)),
+                };
+                let ps = w.reps[r].make_patches(&mut plog);
+                return json!({"res": res, "patches": crate::patchx::patches_json(&ps)});
+            }
             let doc = &mut w.reps[r];
             let res = match via.as_str() {
                 "apply" => Self::res_of(doc.apply_changes(changes)),
@@ -286,6 +330,15 @@ impl World {
             let mut other = w.reps[s].clone();
             let added: Vec<String> =
                 w.reps[r].get_changes_added(&other).iter().map(|c| enc::hash_str(&c.hash())).collect();
+            if w.log_patches {
+                let mut plog = PatchLog::active();
+                let res = match w.reps[r].merge_and_log_patches(&mut other, &mut plog) {
+                    Ok(_) => json!("ok"),
+                    Err(e) => json!(calls::err_name(&e)),
+                };
+                let ps = w.reps[r].make_patches(&mut plog);
+                return json!({"res": res, "added": added, "patches": crate::patchx::patches_json(&ps)});
+            }
             let res = match w.reps[r].merge(&mut other) {
                 Ok(_) => json!("ok"),
                 Err(e) => json!(calls::err_name(&e)),
@@ -505,8 +558,8 @@ impl World {
     /// document loaded from this replica's save).  Logs the observation before and after and the
     /// hash of one and the same follow-up change made on the rolled-back document and on a clone
     /// taken before the transaction.
-    pub fn rollback_tx(&mut self, r: usize, rng: &mut Rng, prof: &Profile, ncalls: usize, front: &str) {
-        let ev = json!({"ev":"rollback","r":r+1,"front":front});
+    pub fn rollback_tx(&mut self, r: usize, rng: &mut Rng, prof: &Profile, ncalls: usize, front: &str, iso: Option<Vec<ChangeHash>>) {
+        let ev = json!({"ev":"rollback","r":r+1,"front":front,"iso": iso.as_ref().map(|h| json!([enc::hashes_sorted(h)])).unwrap_or(json!([]))});
         let front = front.to_string();
         self.guarded(r, ev, |w| {
             let before = w.full_obs(&w.reps[r]);
@@ -568,7 +621,10 @@ impl World {
                 _ => {
                     let w_inflight = &mut w.inflight;
                     let doc = &mut w.reps[r];
-                    let mut tx = doc.transaction();
+                    let mut tx = match &iso {
+                        Some(h) => doc.transaction_at(PatchLog::inactive(), h).expect("patch log"),
+                        None => doc.transaction(),
+                    };
                     {
                         let txr = std::cell::RefCell::new(&mut tx);
                         let mut exec = |c: &J| calls::exec(&mut **txr.borrow_mut(), c);
@@ -595,5 +651,23 @@ impl World {
             let nc = next(&mut clone);
             json!({"res":"ok","calls":done,"before":before,"after":after,"next_a":na,"next_c":nc})
         });
+    }
+}
+
+impl World {
+    /// C08: diff between two head sets with the projections at both
+    pub fn probe_diff(&mut self, r: usize, before: &[ChangeHash], after: &[ChangeHash]) {
+        let ev = json!({"ev":"diff","r":r+1,"before":enc::hashes_sorted(before),"after":enc::hashes_sorted(after)});
+        let (b, a) = (before.to_vec(), after.to_vec());
+        self.guarded(r, ev, |w| {
+            let ps = w.reps[r].diff(&b, &a);
+            json!({"res":"ok","patches": crate::patchx::patches_json(&ps),
+                   "v1": proj::view(&w.reps[r], Some(&b)), "v2": proj::view(&w.reps[r], Some(&a))})
+        });
+        if let Some(last) = self.log.last_mut() {
+            if let Some(m) = last.as_object_mut() {
+                m.remove("obs");
+            }
+        }
     }
 }
